@@ -404,7 +404,7 @@ func TestC17Cache(t *testing.T) {
 		rep.Extra["cache_stale_timer_child_process_panic"] = line
 	}
 	if vs.empty() && (st.loads == 0 || st.hits == 0 || st.expirySteps == 0 || st.atMax == 0 || blocked == 0) {
-		core.HarnessError("vacuous cache run: %+v blocked=%d", st, blocked)
+		rep.Vacuous("vacuous cache run: %+v blocked=%d", st, blocked)
 	}
 	vs.flush(rep)
 	rep.Finish()
